@@ -34,6 +34,8 @@ SEV_HANDLER(llvm)
         J o = J::obj();
         RCP<const Basic> e;
         o.set("bexc", guarded([&] { e = build(c.at("ts").a[i]); }));
+        // the object that is compiled (its value, not that of the recipe, is what the function must return)
+        o.set("e", e.is_null() ? term("Null") : dump(e));
         J lib = J::obj(), lv = term("Null");
         lib.set("exc", e.is_null() ? std::string("-") : guarded([&] { lv = dump_double(eval_double(*e->subs(m))); }));
         lib.set("v", lv);
